@@ -29,6 +29,9 @@ C={
  'C08':('exploration','lock-step reference-model monitor (fid-table model) with FS-call log, fid-table hook and quiescence hang detector',
         'Random and systematically enumerated call sequences run on the real SFileSys over an instrumented file system; after every call the outcome, the exact FS calls and the whole fid table (via the verif hook) are compared with a sequential reference model; unreturned calls at quiescence are hangs.',
         'trusted: harness/fsx model (DESIGN App. A) incl. its documented relations; instrumented FS deterministic; hook p9p.VerifFidTable'),
+ 'C12':('fault_enumeration','fault enumeration over a recorded run (every reply byte offset, every write, every reply count, every single call) + hostile-frame sampling, under crash, quiescence-hang and result monitors, race detector',
+        'A real CSession client with 1-16 pending calls runs against a scripted peer on a fault-injecting connection: the inbound stream is failed at every byte offset (error/EOF), the peer closes after every reply count, every client write is failed, the session context is cancelled at every point, each call is cancelled alone; hostile frames (unknown/repeated/NOTAG tags, wrong types, abnormal frames, garbage) are sampled. Child-process crash observation, quiescence-based hang detection and per-call result checks decide.',
+        'trusted: virtual deadlines (no timer-based verdicts); exhaustive over fault indices of the generated scenarios, hostile frames sampled'),
  'C13':('fault_enumeration','fault enumeration over FS-call indices and stop points with an online release monitor',
         'For each generated sequence every FS-call index is failed in two flavours, pairs are sampled and Stop is issued after every prefix; handle-level monitors (unique ids, released/consumed state) detect double release, use after release and leaks; the model says which handle each release must hit.',
         'trusted: fsx handles and model; exhaustive over (sequence, single fault, stop prefix), sampled over sequences and pairs'),
